@@ -16,6 +16,7 @@ namespace
         static void w(void *p, const char *d, unsigned n) { ((TermC *)p)->sink->on_write(d, n); }
         static void e(void *p, const char *d, unsigned n) { ((TermC *)p)->sink->on_execute(d, n); }
         static void s(void *p, int sig) { ((TermC *)p)->sink->on_signal(sig); }
+        void set_echo(bool on) override { vt.echo = on ? 1 : 0; }
         void start(unsigned cap, unsigned h, TermSink *sk, const char *prompt, bool echo, unsigned flags = 0) override
         {
             sink = sk;
